@@ -16,6 +16,10 @@ MP = "EasyFEA.Models.InElastic._materialpoint"
 
 
 def run(ctx):
+    from ..shared import parameter_threading_rule as _ptr
+
+    ctx.attempt(committed_state_invariance_rule, ctx)
+    ctx.attempt(_ptr, ctx, "R19.14", scope=lambda f: f.module.name.startswith(("EasyFEA.Models.InElastic", "EasyFEA.Simulations._inelastic")))
     from ..shared import zero_argument_division_rule as _zero_argument_division_rule
 
     ctx.attempt(_zero_argument_division_rule, ctx, "R19.13", scope=lambda f: f.module.name.startswith(("EasyFEA.Models.InElastic", "EasyFEA.Simulations._inelastic")))
@@ -716,3 +720,43 @@ def multiplier_column_rule(ctx):
             r.ok(f"J[{key[-40:]}, nz] == d r / d dGamma")
         else:
             r.fail(fJ.qualname, f"multiplier-column:{key[-30:]}", fJ.file, node.lineno, "Behavior.__Jacobian", f"J[{key}, nz] = {got!r} but d(residual row)/d(dGamma) = {want!r}: the tangent of the local Newton (and the algorithmic tangent built from it) is not the derivative of the residual once the committed state is not zero")
+
+
+def committed_state_invariance_rule(ctx):
+    """R19.15: 'integration never modifies the committed state': inside a convergence loop (a loop left by `break`) every
+    trial integration starts from the SAME committed state: the expression handed to Behavior.Integrate as the old state
+    is not rebound anywhere in that loop.  (Rebinding it from the trial result makes the history advance once per
+    iteration instead of once per converged step.)"""
+    repo = ctx.repo
+    r = ctx.rule("R19.15", "in a convergence loop (one left by break) the old state handed to Integrate is loop-invariant: the trial state never overwrites it before convergence", min_instances=1)
+    beh = repo.cls("EasyFEA.Models.InElastic._behavior.Behavior")
+    integ = beh.methods["Integrate"]
+    zpos = integ.params().index("zOld_e_pg") - 1 if "zOld_e_pg" in integ.params() else 1
+    for f in sorted(repo.all_functions(), key=lambda f: f.qualname):
+        if not f.module.name.startswith(("EasyFEA.Models.InElastic", "EasyFEA.Simulations")):
+            continue
+        for loop in [n for n in ast.walk(f.node) if isinstance(n, (ast.For, ast.While))]:
+            # breaks that leave THIS loop
+            def own_breaks(node, top=True):
+                for c in ast.iter_child_nodes(node):
+                    if isinstance(c, (ast.For, ast.While, ast.FunctionDef, ast.Lambda)):
+                        continue
+                    if isinstance(c, ast.Break):
+                        yield c
+                    else:
+                        yield from own_breaks(c, False)
+
+            if not any(True for _ in own_breaks(loop)):
+                continue
+            for n in ast.walk(loop):
+                if isinstance(n, ast.Call) and isinstance(n.func, ast.Attribute) and n.func.attr == "Integrate" and len(n.args) > zpos:
+                    z = n.args[zpos]
+                    r.instance(fn=f.qualname)
+                    if not isinstance(z, ast.Name):
+                        r.ok(f"{f.qualname}: old state is an expression")
+                        continue
+                    rebound = [m for m in ast.walk(loop) if isinstance(m, ast.Name) and m.id == z.id and isinstance(m.ctx, ast.Store)]
+                    if rebound:
+                        r.fail(f.qualname, f"old-state-rebound:{z.id}", f.file, rebound[0].lineno, f"{(f.cls.name + '.') if f.cls else ''}{f.name}", f"`{z.id}`, the committed state handed to Integrate, is rebound inside the convergence loop (line {rebound[0].lineno}): every iteration integrates from the trial state of the previous one, the history advances inside the iterations and the recorded (stress, state) is not a single integration from the last converged step")
+                    else:
+                        r.ok(f"{f.qualname}: `{z.id}` is not rebound in the convergence loop")
